@@ -221,14 +221,191 @@ let model_case (id : string) (toks : string list) : unit =
     Buffer.add_string buf (Printf.sprintf " %s#%016Lx" (out_str out) (digest_state st' !clock))) toks;
   Printf.printf "Q %s%s | %s\n" id (Buffer.contents buf) (state_str !st)
 
+(* ---- event queue (component stream V): capacity 256 as in the harness build *)
+let vcap = n_of_int 256
+
+let tier_str (l : ev list) : string =
+  String.concat "," (List.map (fun e ->
+    Printf.sprintf "%s.%s.%s" (string_of_n e.v_num) (string_of_n e.v_prio) (string_of_n e.v_len)) l)
+let evq_str (q : evq) : string =
+  Printf.sprintf "c[%s]i[%s]d[%s]n%s" (tier_str q.q_crit) (tier_str q.q_info) (tier_str q.q_dbg) (string_of_n q.q_next)
+
+let parse_tier (s : string) : ev list =
+  List.map (fun t -> match String.split_on_char '.' t with
+    | [n; p; l] -> { v_num = n_of_string n; v_prio = n_of_string p; v_len = n_of_string l }
+    | _ -> failwith "bad event") (split_on ',' s)
+
+(* "c[..]i[..]d[..]n<next>" *)
+let parse_evq (s : string) : evq =
+  match String.split_on_char '[' s with
+  | [_; c; i; d] ->
+      let upto x = String.sub x 0 (String.index x ']') in
+      let nx = String.rindex d 'n' in
+      { q_crit = parse_tier (upto c); q_info = parse_tier (upto i); q_dbg = parse_tier (upto d);
+        q_next = n_of_string (String.sub d (nx + 1) (String.length d - nx - 1)) }
+  | _ -> failwith ("bad queue dump: " ^ s)
+
+let model_v (id : string) (toks : string list) : unit =
+  let q = ref evq_init in
+  let buf = Buffer.create 512 in
+  List.iter (fun t ->
+    match String.split_on_char ':' t with
+    | [prio; _pay; len] ->
+        let (q', ok) = push vcap (n_of_string prio) (n_of_string len) !q in
+        q := q';
+        Buffer.add_string buf (Printf.sprintf " %s%s" (if ok then "+" else "!") (evq_str q'))
+    | _ -> failwith ("bad V token: " ^ t)) toks;
+  Printf.printf "V %s%s\n" id (Buffer.contents buf)
+
+(* monitor on the dumps of the real queue: ascending iteration order, capacities, priorities per buffer *)
+let spec_v (id : string) (toks : string list) : unit =
+  let bad = ref None in
+  List.iteri (fun k t ->
+    if !bad = None then begin
+      let body = String.sub t 1 (String.length t - 1) in
+      if not (qinv_b vcap (parse_evq body)) then bad := Some k
+    end) toks;
+  match !bad with
+  | Some k -> Printf.printf "V %s VIOL event_queue_order step=%d\n" id k
+  | None -> Printf.printf "V %s ok\n" id
+
+(* ---- end-to-end traces (stream U) *)
+let spec_u (id : string) (line : string) : unit =
+  match String.split_on_char '|' line with
+  | [outcome; toks; fin] ->
+      let toks = List.filter (fun t -> t <> "") (String.split_on_char ' ' toks) in
+      let fin = List.filter (fun t -> t <> "") (String.split_on_char ' ' fin) in
+      let g = ref init in
+      let viol = ref None and diff = ref None and pend_est = ref None in
+      let iter_now = ref N0 and iter_evw = ref N0 in
+      let flag k name = if !viol = None then viol := Some (Printf.sprintf "%s step=%d" name k) in
+      let dflag k name = if !diff = None then diff := Some (Printf.sprintf "%s step=%d" name k) in
+      List.iteri (fun k tok ->
+        if !viol = None then
+          match String.split_on_char '~' tok with
+          | [optext; snap; ob] ->
+              let o = parse_op optext in
+              let snap = if snap = "-" then None else Some (parse_snapshot snap) in
+              (* the reporter's iteration: its `now` and event watermark are fixed when it wakes up *)
+              (match o with
+               | OWake now -> iter_now := now
+               | OReportBegin (now, lag) when ob <> "q" -> iter_now := now; iter_evw := N.sub (!g).evn lag
+               | OReportBegin (now, lag) ->
+                   (* a report that followed another one: same iteration if the model finds something reportable
+                      with the iteration's stale values, else the reporter found nothing, purged and woke up again *)
+                   let lag_it = N.sub (!g).evn !iter_evw in
+                   (match snd (step_gen true true None !g (OReportBegin (!iter_now, lag_it))) with
+                    | USid (Some _) -> ()
+                    | _ ->
+                        g := fst (step_gen true true None !g OPurge);
+                        g := fst (step_gen true true None !g (OWake now));
+                        iter_now := now; iter_evw := N.sub (!g).evn lag)
+               | _ -> ());
+              let o = (match o with
+                       | OReportBegin (_, _) when ob = "q" -> OReportBegin (!iter_now, N.sub (!g).evn !iter_evw)
+                       | _ -> o) in
+              let ob = (match ob with "t" -> Some true | "f" -> Some false | _ -> None) in
+              let before = !g in
+              (* the model's own prediction, from the monitor's state *)
+              let (pred, pout) = step_gen true true None before o in
+              (match ob, pout with
+               | Some b, UBool pb -> if b <> pb then dflag k ("emitted:" ^ optext)
+               | _ -> ());
+              let after = mon_step_e2e before o ob snap in
+              g := after;
+              (match o with
+               | OCtxEnd (sid, EOk) ->
+                   (match find_ctx sid before.ctxs with Some x when x.x_prim -> pend_est := Some sid | _ -> ())
+               | ORemove _ -> pend_est := None
+               | _ -> ());
+              (match snap with
+               | Some s ->
+                   if not (agree_e2e pred s) then begin
+                     if Sys.getenv_opt "C13_DEBUG" <> None && !diff = None then
+                       Printf.eprintf "DIFF %s step %d %s\n  predicted %s\n  observed  %s\n" id k optext (state_str pred) (state_str s);
+                     dflag k ("state:" ^ optext)
+                   end;
+                   (* the invariant needs the monitor's bookkeeping (contexts cannot be observed end to end): it is
+                      meaningful for as long as the model's prediction has matched what was observed *)
+                   (match inv_clause after with
+                    | Some c -> if !diff = None then flag k c else ()
+                    | None -> ());
+                   List.iter (fun s -> if not (due_ok s) then flag k ("liveness_due sub=" ^ string_of_n s.s_id)) after.subs;
+                   (match !pend_est with
+                    | Some sid -> pend_est := None;
+                        if not (established_ok after sid) then flag k ("established_not_kept sub=" ^ string_of_n sid)
+                    | None -> ());
+                   (match o with
+                    | OCtxEnd (sid, EFail) ->
+                        (match find_ctx sid before.ctxs, List.find_opt (fun s -> N.eqb s.s_id sid) after.subs with
+                         | Some x, Some s' -> if not (retry_ok x s') then flag k ("retry_same_content sub=" ^ string_of_n sid)
+                         | _ -> ())
+                    | _ -> ())
+               | None -> ());
+              (match o with
+               | OReportBegin (now, _) ->
+                   List.iter (fun x ->
+                     if not x.x_prim && find_ctx x.x_sub.s_id before.ctxs = None then
+                       if not (begin_ok x.x_sub now) then flag k ("min_interval sub=" ^ string_of_n x.x_sub.s_id))
+                     after.ctxs
+               | _ -> ())
+          | _ -> failwith ("bad trace token: " ^ tok)) toks;
+      (* what the subscriber ends up knowing *)
+      let known_loss = ref None in
+      List.iter (fun t ->
+        match String.split_on_char ':' t with
+        | ["L"; sid; alive] -> if alive <> "1" && !viol = None then viol := Some ("established_subscription_gone sub=" ^ sid)
+        | ["F"; sid; k; dev; got] ->
+            if not (learned_ok [(n_of_string dev, n_of_string got)]) && !viol = None then
+              viol := Some (Printf.sprintf "change_never_reported sub=%s path=%s device=%s subscriber=%s" sid k dev got)
+        | ["G"; sid; exp; got; lost] ->
+            let l s = if s = "-" then [] else String.split_on_char '.' s in
+            let missing = List.filter (fun n -> not (List.mem n (l got))) (l exp) in
+            let unexplained = List.filter (fun n -> not (List.mem n (l lost))) missing in
+            if unexplained <> [] && !viol = None then
+              viol := Some (Printf.sprintf "event_never_reported sub=%s event=%s" sid (List.hd unexplained))
+            else if missing <> [] then known_loss := Some (Printf.sprintf "sub=%s event=%s" sid (List.hd missing));
+            (* order and no duplicates *)
+            let rec asc = function a :: (b :: _ as t) -> int_of_string a < int_of_string b && asc t | _ -> true in
+            if not (asc (l got)) && !viol = None then viol := Some ("events_out_of_order sub=" ^ sid)
+        | _ -> ()) fin;
+      let outcome = String.trim outcome in
+      if String.length outcome < 4 || String.sub outcome 0 4 <> "done" then
+        (if !viol = None then viol := Some ("run:" ^ outcome));
+      (match !viol, !known_loss, !diff with
+       | Some v, _, _ -> Printf.printf "U %s VIOL %s\n" id v
+       | None, Some kl, _ -> Printf.printf "U %s KNOWN event_evicted_before_report %s\n" id kl
+       | None, None, Some d -> Printf.printf "U %s DIFF %s\n" id d
+       | None, None, None -> Printf.printf "U %s ok\n" id)
+  | _ -> Printf.printf "U %s VIOL malformed-trace\n" id
+
 let () =
   let spec_mode = Array.length Sys.argv > 1 && Sys.argv.(1) = "spec" in
   try
     while true do
       let line = input_line stdin in
-      match String.split_on_char ' ' line with
+      (* whatever the harness printed (a panic, a hang, a truncated line under mutated code): never crash, say so *)
+      try
+      (match String.split_on_char ' ' line with
       | "Q" :: id :: toks -> if not spec_mode then model_case id (List.filter (fun t -> t <> "") toks)
       | "T" :: id :: toks -> if spec_mode then spec_case id (List.filter (fun t -> t <> "") toks)
-      | _ -> ()
+      | "V" :: id :: toks ->
+          let toks = List.filter (fun t -> t <> "") toks in
+          if spec_mode then spec_v id toks else model_v id toks
+      | "U" :: id :: _ ->
+          if spec_mode then begin
+            let i = String.index_from line 2 ' ' in
+            spec_u id (String.sub line (i + 1) (String.length line - i - 1))
+          end
+      | _ -> ())
+      with
+      | End_of_file -> raise End_of_file
+      | e ->
+          (match String.split_on_char ' ' line with
+           | kind :: id :: _ ->
+               if spec_mode then Printf.printf "%s %s VIOL unreadable-output:%s\n" kind id
+                   (String.map (fun c -> if c = ' ' then '_' else c) (Printexc.to_string e))
+               else Printf.printf "%s %s model-error\n" kind id
+           | _ -> ())
     done
   with End_of_file -> ()
